@@ -18,8 +18,8 @@ Proof. induction l as [|[w v] r IH]; [cbn; lia|]. cbn [enc_fx length]. rewrite a
 
 Lemma len_enc_ta ta : (length ta <= length (enc_ta ta))%nat.
 Proof.
-  induction ta as [|d r IH]; [cbn; lia|]. change (enc_ta (d :: r)) with (enc_const d ++ enc_ta r). rewrite app_length. unfold enc_const. rewrite app_length.
-  destruct (enc_op_nonempty (d_op d)) as (x & l & E). rewrite E. cbn [length]. lia.
+  induction ta as [|d r IH]; [cbn; lia|]. change (enc_ta (d :: r)) with (enc_targ d ++ enc_ta r). rewrite app_length.
+  destruct d as [d|b]; cbn [enc_targ]; [unfold enc_const; rewrite app_length; destruct (enc_op_nonempty (d_op d)) as (x & l & E); rewrite E|]; cbn [length]; lia.
 Qed.
 
 Lemma enc_item_len it : (cfuel_item it <= 2 * length (enc_item it))%nat /\ (isz it <= length (enc_item it))%nat /\ (icnt it <= length (enc_item it))%nat.
@@ -66,13 +66,17 @@ Proof.
   destruct w; cbn [fw_enc]; [constructor; [exact Hv|constructor]|apply gle_bytes_lt|apply gle_bytes_lt].
 Qed.
 
-Lemma enc_ta_bytes : forall ta, forallb cst_okb ta = true -> Forall (fun b => b < 256) (enc_ta ta).
+Lemma enc_ta_bytes : forall ta, forallb targ_okb ta = true -> Forall (fun b => b < 256) (enc_ta ta).
 Proof.
   induction ta as [|d r IH]; intros Hok; [constructor|]. cbn [forallb] in Hok. apply andb_prop in Hok. destruct Hok as [Hd Hok].
-  unfold cst_okb in Hd. apply andb_prop in Hd. destruct Hd as [Hc Hv].
-  change (enc_ta (d :: r)) with (enc_const d ++ enc_ta r). apply Forall_app. split; [|apply IH; exact Hok].
-  unfold enc_const. apply Forall_app. split; [|apply gle_bytes_lt].
-  destruct (is_constb_cases _ Hc) as [E|[E|[E|[E|[E|[E|E]]]]]]; rewrite E; repeat constructor.
+  change (enc_ta (d :: r)) with (enc_targ d ++ enc_ta r). apply Forall_app. split; [|apply IH; exact Hok].
+  destruct d as [d|b]; cbn [targ_okb enc_targ] in *.
+  - unfold cst_okb in Hd. apply andb_prop in Hd. destruct Hd as [Hc Hv].
+    unfold enc_const. apply Forall_app. split; [|apply gle_bytes_lt].
+    destruct (is_constb_cases _ Hc) as [E|[E|[E|[E|[E|[E|E]]]]]]; rewrite E; repeat constructor.
+  - constructor; [reflexivity|]. apply Forall_app. split; [|repeat constructor].
+    unfold str_okb in Hd. rewrite forallb_forall in Hd. apply Forall_forall. intros c Hc. specialize (Hd c Hc).
+    apply andb_prop in Hd. destruct Hd as [_ B]. apply N.leb_le in B. lia.
 Qed.
 
 Lemma enc_items_bytes : forall l, forallb item_okb l = true -> Forall (fun b => b < 256) (enc_items l).
@@ -130,7 +134,8 @@ Definition f1_ok (h tbl : N) (r : rose) : Prop :=
     (exists off, a = pth_pay h tbl off /\ ks = []) \/
     (exists off nm p po c co d, a = nam_pay h off nm /\ ks = [RN p (pth_pay h tbl po) []; RN c (cst_pay h co d) []] /\ is_constb (d_op d) = true) \/
     (exists off d, a = cst_pay h off d /\ is_constb (d_op d) = true /\ ks = []) \/
-    (exists lk off nm p po rest, a = lf_pay h lk off nm /\ ks = RN p (pth_pay h tbl po) [] :: rest)
+    (exists lk off nm p po rest, a = lf_pay h lk off nm /\ ks = RN p (pth_pay h tbl po) [] :: rest) \/
+    (exists off b, a = str_pay h tbl off b /\ ks = [])
   end.
 (** for the objects of some table *)
 Definition f1_okE (r : rose) : Prop := exists h tbl, f1_ok h tbl r.
@@ -141,12 +146,14 @@ Proof.
   constructor; [|constructor]. exists h, 0. cbn [f1_ok]. right; right; left. do 3 eexists. split; reflexivity.
 Qed.
 
-Lemma cst_row_ok h : forall ta b off, forallb cst_okb ta = true -> Forall (rallr f1_okE) (leaf_row b (cst_pays h off ta)).
+Lemma cst_row_ok h tbl : forall ta b off, forallb targ_okb ta = true -> Forall (rallr f1_okE) (leaf_row b (cst_pays h tbl off ta)).
 Proof.
   induction ta as [|d r IH]; intros b off Hok; [constructor|]. cbn [forallb] in Hok. apply andb_prop in Hok. destruct Hok as [Hd Hok].
-  unfold cst_okb in Hd. apply andb_prop in Hd. destruct Hd as [Hc _].
   cbn [cst_pays leaf_row]. constructor; [|apply IH; exact Hok].
-  constructor; [|constructor]. exists h, 0. cbn [f1_ok]. do 6 right. left. do 2 eexists. split; [reflexivity|split; [exact Hc|reflexivity]].
+  constructor; [|constructor]. destruct d as [d|bs]; cbn [targ_okb targ_pay] in *.
+  - unfold cst_okb in Hd. apply andb_prop in Hd. destruct Hd as [Hc _].
+    exists h, tbl. cbn [f1_ok]. do 6 right. left. do 2 eexists. split; [reflexivity|split; [exact Hc|reflexivity]].
+  - exists h, tbl. cbn [f1_ok]. do 8 right. do 2 eexists. split; reflexivity.
 Qed.
 
 Lemma lay2_ok h tbl : forall l b off, forallb item_okb l = true -> Forall (rallr f1_okE) (lay2 h tbl b off l).
@@ -170,7 +177,7 @@ Proof.
   - apply forallb_item_cons in Hok. destruct Hok as [Hd Hok]. cbn [item_okb] in Hd. apply andb_prop in Hd. destruct Hd as [_ Hta].
     rewrite lay2_cons. apply Forall_app. split; [|apply IH; exact Hok]. cbn [lay2_item]. constructor; [|constructor].
     unfold lhd_pays. cbn [leaf_row app]. constructor.
-    + exists h, tbl. cbn [f1_ok]. do 7 right. do 6 eexists. split; reflexivity.
+    + exists h, tbl. cbn [f1_ok]. do 7 right. left. do 6 eexists. split; reflexivity.
     + constructor.
       * constructor; [|constructor]. exists h, tbl. cbn [f1_ok]. right; right; right; right; left. eexists. split; reflexivity.
       * rewrite leaf_row_app. apply Forall_app. split; [apply fx_row_ok|apply cst_row_ok; exact Hta].
@@ -182,12 +189,14 @@ Proof.
   constructor; [|constructor]. cbn [f1_ok]. right; right; left. do 3 eexists. split; reflexivity.
 Qed.
 
-Lemma cst_row_okh h tbl : forall ta b off, forallb cst_okb ta = true -> Forall (rallr (f1_ok h tbl)) (leaf_row b (cst_pays h off ta)).
+Lemma cst_row_okh h tbl : forall ta b off, forallb targ_okb ta = true -> Forall (rallr (f1_ok h tbl)) (leaf_row b (cst_pays h tbl off ta)).
 Proof.
   induction ta as [|d r IH]; intros b off Hok; [constructor|]. cbn [forallb] in Hok. apply andb_prop in Hok. destruct Hok as [Hd Hok].
-  unfold cst_okb in Hd. apply andb_prop in Hd. destruct Hd as [Hc _].
   cbn [cst_pays leaf_row]. constructor; [|apply IH; exact Hok].
-  constructor; [|constructor]. cbn [f1_ok]. do 6 right. left. do 2 eexists. split; [reflexivity|split; [exact Hc|reflexivity]].
+  constructor; [|constructor]. destruct d as [d|bs]; cbn [targ_okb targ_pay] in *.
+  - unfold cst_okb in Hd. apply andb_prop in Hd. destruct Hd as [Hc _].
+    cbn [f1_ok]. do 6 right. left. do 2 eexists. split; [reflexivity|split; [exact Hc|reflexivity]].
+  - cbn [f1_ok]. do 8 right. do 2 eexists. split; reflexivity.
 Qed.
 
 Lemma lay2_okh h tbl : forall l b off, forallb item_okb l = true -> Forall (rallr (f1_ok h tbl)) (lay2 h tbl b off l).
@@ -211,7 +220,7 @@ Proof.
   - apply forallb_item_cons in Hok. destruct Hok as [Hd Hok]. cbn [item_okb] in Hd. apply andb_prop in Hd. destruct Hd as [_ Hta].
     rewrite lay2_cons. apply Forall_app. split; [|apply IH; exact Hok]. cbn [lay2_item]. constructor; [|constructor].
     unfold lhd_pays. cbn [leaf_row app]. constructor.
-    + cbn [f1_ok]. do 7 right. do 6 eexists. split; reflexivity.
+    + cbn [f1_ok]. do 7 right. left. do 6 eexists. split; reflexivity.
     + constructor.
       * constructor; [|constructor]. cbn [f1_ok]. right; right; right; right; left. eexists. split; reflexivity.
       * rewrite leaf_row_app. apply Forall_app. split; [apply fx_row_okh|apply cst_row_okh; exact Hta].
@@ -229,7 +238,7 @@ Proof.
   destruct (Desc_inv _ _ _ _ _ Dy) as (Py & Ky & Dks). assert (a' = a) by congruence. subst a'.
   assert (Hcalls : forall (P : Prop), P -> (negb (y_op a =? aml_pOpIntNamePathOrMethodCall) || negb (y_th a =? H0) = true) -> nonnamed_ok g H0 y a ->
             P /\ nonnamed_ok g H0 y a /\ calls_ok g H0 y a) by (intros P HP Hc Hn; split; [exact HP|split; [exact Hn|split; assumption]]).
-  cbn [f1_ok] in Oy. destruct Oy as [(nm & ->)|[(bk & off & nm & p & po & rest & -> & ->)|[(off & w & v & -> & ->)|[(off & ->)|[(off & -> & ->)|[(off & nm & p & po & c & co & d & -> & -> & Hc)|[(off & d & -> & Hc & ->)|(lk & off & nm & p & po & rest & -> & ->)]]]]]]].
+  cbn [f1_ok] in Oy. destruct Oy as [(nm & ->)|[(bk & off & nm & p & po & rest & -> & ->)|[(off & w & v & -> & ->)|[(off & ->)|[(off & -> & ->)|[(off & nm & p & po & c & co & d & -> & -> & Hc)|[(off & d & -> & Hc & ->)|[(lk & off & nm & p & po & rest & -> & ->)|(off & bs & -> & ->)]]]]]]]].
   - (* default scope *)
     split; [do 3 eexists; split; [reflexivity|right; reflexivity]|]. split; [do 3 eexists; split; reflexivity|].
     apply Hcalls; [|reflexivity|do 3 eexists; split; [reflexivity|left; reflexivity]].
@@ -278,6 +287,11 @@ Proof.
        pose proof (Forall_inv Dks) as Dp; destruct (Desc_inv _ _ _ _ _ Dp) as (Pp & _ & _);
        exists p, (pth_pay h tbl po), tbl, (mkSlice (Some po) 4); rewrite Ky; cbn [map ridx hd];
        split; [reflexivity|]; split; [exact Pp|]; split; [discriminate|]; split; [reflexivity|]; cbn [s_len]; cbv; discriminate).
+  - (* string *)
+    unfold str_pay, merge_ok, defer_ok, reloc_ok, nonnamed_ok, calls_ok. cbn [y_info y_op y_th].
+    split; [do 3 eexists; split; [reflexivity|right; reflexivity]|]. split; [do 3 eexists; split; reflexivity|].
+    split; [do 3 eexists; split; [reflexivity|right; left; reflexivity]|].
+    split; [do 3 eexists; split; [reflexivity|right; reflexivity]|]. split; [reflexivity|do 3 eexists; split; [reflexivity|right; reflexivity]].
 Qed.
 
 (** ---- passes 3 to 6 on any tree that satisfies the local conditions ---- *)
